@@ -906,6 +906,13 @@ func driveZipRoundTrip(tw *TraceWriter, rnd *rand.Rand, maxFiles int) {
 	}
 	// the filter, as a pure function of the relative path
 	fkind := rnd.Intn(6)
+	bigRound := !zipBigDone // the round trip that carries the > 64 MiB file: no filter, recursive, at least one file
+	if bigRound {
+		fkind = 0
+		if nf == 0 {
+			nf = 1
+		}
+	}
 	salt := rnd.Uint32()
 	accept := func(rel []string) bool {
 		switch fkind {
@@ -923,7 +930,7 @@ func driveZipRoundTrip(tw *TraceWriter, rnd *rand.Rand, maxFiles int) {
 		}
 		return true // fkind 0: nil filter
 	}
-	recursive := rnd.Intn(3) != 0
+	recursive := rnd.Intn(3) != 0 || bigRound
 	tw.Emit(map[string]any{"op": "Tree"})
 	type fileT struct {
 		rel  string
